@@ -29,7 +29,7 @@ REL = 1e-9
 FAMS = ("ident", "sparse", "str", "zero")
 
 MC_CONFIGS = {
-    "quick": [dict(N=2, K=2, V=2), dict(N=3, K=2, V=2), dict(N=4, K=2, V=1)],
+    "quick": [dict(N=2, K=2, V=2), dict(N=3, K=2, V=2), dict(N=4, K=2, V=1), dict(N=3, K=3, V=1)],
     "thorough": [dict(N=2, K=2, V=2), dict(N=3, K=2, V=2), dict(N=4, K=2, V=2), dict(N=5, K=2, V=1), dict(N=3, K=3, V=1)],
 }
 MC_INV = ["ClosedFormsEqualBruteForce", "KappaCountsPairs", "WSymmetric"]
@@ -264,14 +264,23 @@ def close(x, num, den):
 
 
 def validate_closed_forms(res, tier, rng):
-    n_cases = 220 if tier == "quick" else 2500
+    n_cases = 400 if tier == "quick" else 4000
     cases, raws, descr, extra = [], [], [], []
     for i in range(n_cases):
         N = 2 if i % 23 == 0 else rng.randint(3, 6)
         K = rng.randint(1, 3)
         c, raw, unclean, raised, d = closed_form_case(rng, N, K, tier, i)
         cases.append(c), raws.append(raw), descr.append(d), extra.append((unclean, raised))
-    v = K_.run_cases("Trace_C15", cases, {}, procs=12)
+    # self-test of the validator: a corrupted copy of a good case must be rejected, naming the clause
+    k0 = next(i for i, c in enumerate(cases) if c.get("pp") and c["N"] > 2)
+    bad = json.loads(json.dumps(cases[k0]))
+    bad["pp"][0] = [bad["pp"][0][0] + bad["pp"][0][1], bad["pp"][0][1]]          # Lambda + 1
+    bad["kappa"][0] = [bad["kappa"][0][0], [bad["kappa"][0][1][0] + 1, 1]]
+    v = K_.run_cases("Trace_C15", cases + [bad], {}, procs=12)
+    st = [f for i, f in v["rejects"] if i == len(cases)]
+    if not st or not {"poisson_params", "kappa"} <= set(st[0]):
+        raise tlc.TLCError("Trace_C15 self-test: a corrupted case was not rejected (%s)" % st)
+    v["rejects"] = [(i, f) for i, f in v["rejects"] if i < len(cases)]
     rejected = {}
     for idx, failed in v["rejects"]:
         if "harness_bounds" in failed:
@@ -347,7 +356,7 @@ def validate_closed_forms(res, tier, rng):
                    % (",".join(sorted(failed)), d["N"], d["K"], d["D"], d["u_int"], d["u_divided_by"], d["w_int"], d["w_divided_by"]),
                    {"case": d, "logged": cases[idx]})
     res.cov(traces_validated_against_impl=len(cases), validator_states=v["states"], oracle_cases=len(ocases),
-            closed_form_cases_rejected=len(rejected), calls_raised=raised_cases,
+            closed_form_cases_rejected=len(rejected), calls_raised=raised_cases, validator_selftests=1,
             closed_form_values_checked=sum(len(c.get("pp", [])) + sum(len(r["per"]) + 1 for r in c["ed"]) +
                                            sum(len(r["got"]) for r in c["dimseq"]) + len(c["kappa"]) + len(c["C"]) for c in cases))
     res.sample({"closed_form_case": descr[-1], "logged": {k: cases[-1][k] for k in ("pp", "dimseq", "kappa") if k in cases[-1]}})
@@ -415,13 +424,15 @@ def run_fit_config(cfg, T):
                 raised = (t, repr(ex))
                 break
         u, w = np.asarray(m.u), np.asarray(m.w)
-        tol_w = 1e-9 * max(1.0, float(np.max(np.abs(w))) if np.all(np.isfinite(w)) else 1.0)
+        fin = bool(np.all(np.isfinite(u)) and np.all(np.isfinite(w)))
+        wmax = max(1.0, float(np.max(np.abs(w)))) if fin else 1.0
+        # symmetry / diagonality are judged on finite matrices only (a NaN is reported once, as finite_nonnegative)
         f = {"uSame": u0 is None or (np.array_equal(u, u0) and np.array_equal(ua, u0) and u.dtype == u0.dtype),
              "wSame": w0 is None or (np.array_equal(w, w0) and np.array_equal(wa, w0) and w.dtype == w0.dtype),
-             "finite": bool(np.all(np.isfinite(u)) and np.all(np.isfinite(w))),
-             "nonneg": bool(np.all(u >= -1e-12) and np.all(w >= -1e-12)),
-             "wsym": bool(w.shape == (K, K) and np.all(np.abs(w - w.T) <= tol_w)),
-             "wdiag": bool(w.shape == (K, K) and np.all(np.abs(w - np.diag(np.diag(w))) <= 1e-12 * max(1.0, tol_w / 1e-9)))}
+             "finite": fin,
+             "nonneg": bool((not fin) or (np.all(u >= -1e-12) and np.all(w >= -1e-12))),
+             "wsym": bool(w.shape == (K, K) and ((not fin) or np.all(np.abs(w - w.T) <= 1e-9 * wmax))),
+             "wdiag": bool(w.shape == (K, K) and ((not fin) or np.all(np.abs(w - np.diag(np.diag(w))) <= 1e-12 * wmax)))}
         f = {k: bool(v) for k, v in f.items()}
         e = {"ev": "step", "r": 0, "it": t - 1, "conv": False, "f": f, "obj": 0, "objx": 0}
         if u0 is not None and f["finite"]:
@@ -447,15 +458,30 @@ def run_fit_config(cfg, T):
     return tr, info
 
 
-def validate_fit(res, tier, rng, only=None):
-    n_cfg = 108 if tier == "quick" else 900
-    T = 12 if tier == "quick" else 16
+def validate_fit(res, tier, rng, only=None, T=None):
+    n_cfg = 150 if tier == "quick" else 1600
+    T = T or (12 if tier == "quick" else 16)
     cfgs = [fit_config(rng, i, tier) for i in range(n_cfg)] if only is None else only
     traces, infos = [], []
     for cfg in cfgs:
         tr, info = run_fit_config(cfg, T)
         traces.append(tr), infos.append(info)
-    v = EM.run_traces(traces, procs=12)
+    # self-test of the validator: corrupted copies of a good trace must be rejected, naming the clause
+    selft = []
+    k0 = next((i for i, tr in enumerate(traces) if tr["cfg"]["ascent"] and len(tr["ev"]) > 5), None)
+    if k0 is not None and only is None:
+        a = json.loads(json.dumps(traces[k0]))
+        a["ev"][3]["obj"] = a["ev"][2]["obj"] - 1
+        b = json.loads(json.dumps(traces[k0]))
+        b["ev"][2]["f"]["uSame"] = False
+        c = json.loads(json.dumps(traces[k0]))
+        del c["ev"][2]                                     # a dropped event: the iteration order breaks
+        selft = [(a, "likelihood_ascent"), (b, "fixed_parameters_stay"), (c, "m:iteration_order")]
+    v = EM.run_traces(traces + [x for x, _ in selft], procs=12)
+    for j, (_, clause) in enumerate(selft):
+        if not any(t == len(traces) + j and clause in f for t, _, f in v["rejects"]):
+            raise tlc.TLCError("Trace_EM self-test: corrupted trace %d was not rejected with %s" % (j, clause))
+    v["rejects"] = [r for r in v["rejects"] if r[0] < len(traces)]
     by_trace = {}
     for t, l, failed in v["rejects"]:
         by_trace.setdefault(t, []).append((l, failed))
@@ -496,7 +522,7 @@ def validate_fit(res, tier, rng, only=None):
     n_asc = sum(1 for tr in traces if tr["cfg"]["ascent"])
     res.cov(fit_traces=len(traces), fit_runs=sum(len(tr["ev"]) - 3 for tr in traces), em_events=v["events"], em_validator_states=v["states"],
             ascent_traces=n_asc, ascent_traces_w_prior_zero=sum(1 for tr, i in zip(traces, infos) if tr["cfg"]["ascent"] and not i["w_prior_positive"]),
-            likelihood_decreases_with_positive_prior=n_known_shape)
+            likelihood_decreases_with_positive_prior=n_known_shape, validator_selftests=len(selft))
     k = next((i for i, tr in enumerate(traces) if tr["cfg"]["ascent"]), 0)
     res.sample({"fit_config": cfgs[k], "loglik_from_definition": infos[k]["L"], "map_objective": infos[k]["MAP"]})
     return traces, infos
@@ -539,5 +565,5 @@ def replay(path):
         print("replay: closed-form case, re-run `./run.py check C15` with VERIF_SEED=%s" % rp.get("seed"))
         return 2
     cfg["edges"] = [tuple(e) for e in cfg["edges"]]
-    validate_fit(res, rp.get("tier", "quick") if rp.get("tier") in ("quick", "thorough") else "quick", random.Random(0), only=[cfg])
+    validate_fit(res, "quick", random.Random(0), only=[cfg], T=max(12, len(rp["payload"].get("n_iter", []))))
     return res.finish()
